@@ -391,7 +391,7 @@ int main(int argc, char **argv)
 	const long long start = a.num("start", 0), cases = a.num("cases", 1);
 	const std::string mode = a.str("mode", "stress");
 	ff::verif_mpmc_hook() = hook;
-	R.case_seconds = 300;
+	R.case_seconds = (unsigned)a.num("case-seconds", 300);
 	for (long long n = start; n < start + cases; ++n) {
 		R.case_mark(n);
 		if (mode == "stress") {
